@@ -208,9 +208,12 @@ def run_one(ctx, mod, case):
 # Ambient configuration of the process a shard runs in.  None of the properties is conditional on it, so the same
 # workload is spread over ordinary processes, processes with DEBUG logging switched on (every record is formatted by a
 # sink handler) and processes whose locale encoding is ASCII (no UTF-8 mode, no locale coercion): what the library does
-# only "when verbose" or only "on my UTF-8 machine" is observed too.  The parent picks by shard number; a replay file
+# only "when verbose" or only "on my UTF-8 machine" is observed too; a fourth kind of process turns UserWarning into an
+# exception (where a statement allows warnings, the harness records them inside warnings.catch_warnings as before); the
+# DEBUG-logging processes also run with `python -O` (assert statements stripped, in the library and in the harness alike -
+# no verdict of the harness is an assert).  The parent picks by shard number; a replay file
 # records the ambient of the shard that produced it.
-AMBIENTS = ['default', 'logging-debug', 'default', 'ascii-locale']
+AMBIENTS = ['default', 'logging-debug+optimized', 'warnings-as-errors', 'ascii-locale']
 AMBIENT_STATE = {'name': 'default', 'log_records_formatted': 0}
 
 
@@ -220,7 +223,7 @@ def ambient_for(shard):
 
 def apply_ambient(name):
     AMBIENT_STATE['name'] = name
-    if name == 'logging-debug':
+    if 'logging-debug' in name:
         import logging
 
         class _Sink(logging.Handler):
@@ -247,6 +250,13 @@ def shard_main(argv):
     try:
         if hasattr(mod, 'setup'):
             mod.setup(ctx)
+        if AMBIENT_STATE['name'] == 'warnings-as-errors':
+            # installed after the imports (the package itself warns at import time on this Python): from here on a
+            # UserWarning nobody asked for is an exception, as under `-W error::UserWarning` / pytest -W error
+            import warnings
+            warnings.filterwarnings('error', category=UserWarning)
+            # the one warning the library gives by design in this sandbox (python3-apt is absent), established on the unchanged tree
+            warnings.filterwarnings('default', message="Parsing of Deb822 data with python3-apt's apt_pkg was requested", category=UserWarning)
         reach.start()
         if replay:
             with open(replay) as f:
@@ -265,8 +275,10 @@ def shard_main(argv):
         v['ambient'] = AMBIENT_STATE['name']
         v['hashseed'] = int(os.environ.get('PYTHONHASHSEED') or 0)
     res['counters']['ambient:%s:evaluations' % AMBIENT_STATE['name']] = res['evaluations']
-    if AMBIENT_STATE['name'] == 'logging-debug':
+    if 'logging-debug' in AMBIENT_STATE['name']:
         res['counters']['ambient:logging-debug:log-records-formatted'] = AMBIENT_STATE['log_records_formatted']
+    if 'optimized' in AMBIENT_STATE['name']:
+        res['counters']['ambient:optimized:sys.flags.optimize=%d' % sys.flags.optimize] = 1
     if AMBIENT_STATE['name'] == 'ascii-locale':
         import locale
         res['counters']['ambient:ascii-locale:preferred-encoding=%s' % locale.getpreferredencoding(False)] = 1
@@ -314,7 +326,7 @@ def _spawn(prop, tier, seed, shard, nshards, out, replay, results, errors):
             pass
     if ambient == 'ascii-locale':
         env.update({'LC_ALL': 'C', 'LANG': 'C', 'PYTHONCOERCECLOCALE': '0', 'PYTHONUTF8': '0', 'PYTHONIOENCODING': 'utf-8'})
-    cmd = [PY, '-B', '-m', 'vp.shard', prop, tier, str(seed), str(shard), str(nshards), out]
+    cmd = [PY, '-B'] + (['-O'] if 'optimized' in ambient else []) + ['-m', 'vp.shard', prop, tier, str(seed), str(shard), str(nshards), out]
     if replay:
         cmd.append(replay)
     try:
